@@ -103,7 +103,7 @@ def _worker(args):
 def pmap(mod, cases, nproc=None, chunksize=None):
     global _MOD
     _MOD = mod
-    nproc = nproc or NPROC
+    nproc = min(nproc or NPROC, 1 + len(cases) // 120)  # pool start-up costs ~1 s per worker on this machine
     items = list(enumerate(cases))
     # VERIF_SEED only permutes processing order
     random.Random(SEED).shuffle(items)
@@ -222,13 +222,14 @@ def run_check(mod, tier, replay=None):
     for what, n in known_lines.items():
         print("KNOWN-FINDING: property=%s %s (matched %d cases)" % (pid, what, n))
     nviol = sum(d["count"] for d in new)
-    for d in new[:20]:
+    nshow = int(os.environ.get('VERIF_SHOW', '20'))
+    for d in new[:nshow]:
         path = write_replay(pid, d["case"], d["v"])
         print("VIOLATION property=%s replay=%s" % (pid, path))
         print("  clause=%s tags=%s count=%d\n  %s" % (d["v"]["clause"], d["v"]["tags"], d["count"],
                                                      d["v"]["detail"]))
-    if len(new) > 20:
-        print("  ... %d more violation classes" % (len(new) - 20))
+    if len(new) > nshow:
+        print("  ... %d more violation classes" % (len(new) - nshow))
 
     ok_frac = None
     floor = getattr(mod, "MIN_OK_FRACTION", None)
@@ -263,8 +264,9 @@ def run_check(mod, tier, replay=None):
         "coverage": coverage, "assumptions": list(mod.ASSUMPTIONS),
         "wall_s": round(time.time() - t0, 2), "violations": nviol,
     }
-    os.makedirs(os.path.join(VERIF_DIR, "evidence"), exist_ok=True)
-    with open(os.path.join(VERIF_DIR, "evidence", pid + ".json"), "w") as f:
+    evdir = os.environ.get("VERIF_EVIDENCE_DIR", os.path.join(VERIF_DIR, "evidence"))
+    os.makedirs(evdir, exist_ok=True)
+    with open(os.path.join(evdir, pid + ".json"), "w") as f:
         json.dump(ev, f, indent=1, default=str)
 
     print("%s tier=%s cases=%d distinct_nontrivial=%d states=%d transitions=%d status=%s wall=%.1fs" % (
